@@ -39,17 +39,25 @@ pub fn check_case(c: &LoopCase) -> Verdict {
     let min_ps = dur_ps(c.min_time).unwrap_or(0);
     let max_ps = dur_ps(c.max_time).unwrap_or(u128::MAX);
     let o = run_loop(c);
-    if let Err(e) = &o.result {
-        return Verdict::fail("unexpected-panic", format!("loop panicked: {e}\ncase: {c:?}"));
-    }
-    if let Err((sig, msg)) = c01::check_lifecycle(c, &o) {
-        return Verdict::fail(format!("lifecycle:{sig}"), format!("{msg}\ncase: {c:?}"));
+    // A runaway run that the harness wound down is judged on its completed
+    // rounds: if the rule stops earlier than the run did, that is a violation;
+    // otherwise the case is inconclusive.
+    let abandoned = o.abandoned;
+    if !abandoned {
+        if let Err(e) = &o.result {
+            return Verdict::fail("unexpected-panic", format!("loop panicked: {e}\ncase: {c:?}"));
+        }
+        if let Err((sig, msg)) = c01::check_lifecycle(c, &o) {
+            return Verdict::fail(format!("lifecycle:{sig}"), format!("{msg}\ncase: {c:?}"));
+        }
     }
     let tr = Traces::of(&o);
-    let rounds = tr.rounds();
-    for t in 0..t_eff {
-        let r = tr.threads.get(t).map(|x| x.rounds.len()).unwrap_or(0);
-        vensure!(r == rounds, "uneven-rounds", "thread {t} ran {r} rounds, another thread {rounds}\ncase: {c:?}");
+    let rounds = if abandoned { (0..t_eff).map(|t| tr.threads.get(t).map(|x| x.rounds.len()).unwrap_or(0)).min().unwrap_or(0) } else { tr.rounds() };
+    if !abandoned {
+        for t in 0..t_eff {
+            let r = tr.threads.get(t).map(|x| x.rounds.len()).unwrap_or(0);
+            vensure!(r == rounds, "uneven-rounds", "thread {t} ran {r} rounds, another thread {rounds}\ncase: {c:?}");
+        }
     }
     if n == 0 || max_ps == 0 {
         vensure!(rounds == 0 && o.view.durations.is_empty(), "ran-despite-zero", "{rounds} rounds although sample_count or max_time is 0\ncase: {c:?}");
@@ -94,6 +102,9 @@ pub fn check_case(c: &LoopCase) -> Verdict {
             ended_in_tuning = frozen_at.is_none();
             break;
         }
+    }
+    if abandoned && !matches!(stop_at, Some(k) if k < rounds) {
+        return Verdict::Inconclusive("runaway run (event budget)".into());
     }
     match stop_at {
         Some(k) => vensure!(k == rounds, "ran-too-long", "the rule stops after round {k} but {rounds} rounds ran (sizes {sizes:?}, frozen at {frozen_at:?})\ncase: {c:?}"),
